@@ -19,10 +19,10 @@ pub fn spec() -> Spec {
         replay,
         nshards: |_| 16,
         case_cap_s: |t| t.pick(60, 300),
-        rule: "family 'roundtrip': every labeled complete D-symbol (connected or not) of dimension 1-3 up to the size bound with branching in V, printed from PartialDSym and SimpleDSym, parsed back, compared structurally (dim, size, every op, every v), and printed again; family 'large': harness-built cyclic covers with 10-80 chambers (multi-digit numbers) under 9 systematic renumberings, and generator outputs with >= 10 chambers; family 'edit' (deviation-bounded): deviation 0 = every text of family 'roundtrip' up to the edit size bound, deviation 1 = every single-token edit of it (replace a number by each of 10 boundary values, replace/delete/duplicate/insert a token, truncate), deviation 2 on the texts of symbols of size <= 2 with all v = 1; family 'soup': every string of <= L tokens over a 14-token alphabet. Oracle for every parse: no panic, no abort, returns within the cap; Ok(sym) => every op is a total involution on 1..size, every degree is a multiple of its orbit length (orbit walks of the reference model), and print(sym) parses back to the same symbol. Non-trivial = a text that the parser accepts, or a symbol of size >= 2.",
+        rule: "family 'roundtrip': every labeled complete D-symbol (connected or not) of dimension 1-3 up to the size bound with branching in V, printed from PartialDSym and SimpleDSym, parsed back, compared structurally (dim, size, every op, every v), and printed again; family 'large': harness-built coset symbols of finite Coxeter groups with 10-384 (thorough: 1152) chambers (multi-digit numbers) under 9 systematic renumberings, and generator outputs with >= 10 chambers; family 'edit' (deviation-bounded): deviation 0 = every text of family 'roundtrip' up to the edit size bound, deviation 1 = every single-token edit of it (replace a number by each of 10 boundary values, replace/delete/duplicate/insert a token, truncate), deviation 2 on the texts of symbols of size <= 2 with all v = 1; family 'soup': every string of <= L tokens over a 14-token alphabet. Oracle for every parse: no panic, no abort, returns within the cap; Ok(sym) => every op is a total involution on 1..size, every degree is a multiple of its orbit length (orbit walks of the reference model), and print(sym) parses back to the same symbol. Non-trivial = a text that the parser accepts, or a symbol of size >= 2.",
         assumptions: &["texts are produced by the crate's own Display (that is the property: print then parse)"],
         bounds: |t| json!({"roundtrip_max_size": t.pick(3, 4), "V": [1,2,3], "V_at_size_4": [1,2], "edit_max_size": t.pick(2, 3), "edit_size3_only_unbranched_dim2": true,
-            "deviation2_max_size": 2, "soup_tokens": t.pick(4, 5), "large_sizes": "5..80", "generator_outputs_min_size": 10, "generator_dsets_max_size": t.pick(10, 11)}),
+            "deviation2_max_size": 2, "soup_tokens": t.pick(4, 5), "large_sizes": "10..384 (thorough 1152)", "generator_outputs_min_size": 10, "generator_dsets_max_size": t.pick(10, 11)}),
     }
 }
 
@@ -331,6 +331,19 @@ fn run(ctx: &mut Ctx) {
                         ctx.max("largest_symbol", t.n as i64);
                     }
                 }
+            }
+        }
+    }
+    for (_, c) in coxeter_symbols(tier.pick(400, 1200)) {
+        if c.n < 10 {
+            continue;
+        }
+        for (_, p) in systematic_renumberings(c.n) {
+            if ctx.take() {
+                let t = c.relabel(&p);
+                roundtrip(ctx, "large", &t);
+                ctx.max("largest_symbol", t.n as i64);
+                ctx.add("large_symbols", 1);
             }
         }
     }
